@@ -119,3 +119,91 @@ Proof.
     cbn [fst snd]. apply Z.ltb_lt. apply Hrt. exact He.
 Qed.
 End Era.
+
+(* ---- the extended oracle: receive-time increments and the recorded exchange ---- *)
+From ST Require Import Proofs.TssFrame.
+
+Definition post_of (s : tss) (cid : Z) : option (list (Z * Z)) :=
+  match find_item cid (items s) with Some it => Some (pairs_of (it_ents it)) | None => None end.
+
+Lemma all_collide_intro pre : forall n rxt,
+  (forall d, rxt <= d < rxt + Z.of_nat n -> has_first (to64 d) pre = true) -> all_collide pre rxt n = true.
+Proof.
+  induction n as [|n IH]; intros rxt H; cbn [all_collide]; [reflexivity|].
+  rewrite (H rxt) by lia. cbn [andb]. apply IH. intros d Hd. apply H. lia.
+Qed.
+
+Lemma has_pair_pairs_of e l : In e l -> has_pair (e_rx e) (e_tx e) (pairs_of l) = true.
+Proof.
+  intros He. unfold has_pair, pairs_of. apply existsb_exists. exists (e_rx e, e_tx e).
+  split; [apply in_map_iff; exists e; auto|]. cbn [fst snd]. rewrite !Z.eqb_refl. reflexivity.
+Qed.
+
+Section Era2.
+Variable k : Z.
+Variable c : config.
+Hypothesis Hicap : 0 < icap c.
+
+Lemma model_rxt_oracle s cid q rxt now victim out :
+  Inv c s -> in_era k rxt -> in_era k (rxt + icap c + 1) ->
+  handle c s cid q rxt now victim = Some out ->
+  C06_rxt_ok (pre_of s cid) rxt (o_rxt out) = true.
+Proof.
+  intros [Hnd [Hcap [Hall Hhq]]] E1 E2 Hh.
+  destruct (handle_rxt_spec c s cid q rxt now victim out Hh) as [Hle [Hcol _]].
+  unfold C06_rxt_ok, pre_of. unfold ents_of_client in Hcol.
+  destruct (find_item cid (items s)) as [it|] eqn:Hfind.
+  - destruct (find_item_In _ _ _ Hfind) as [Hin _].
+    assert (Hok : item_ok c it) by (rewrite Forall_forall in Hall; apply Hall; exact Hin).
+    pose proof (handle_rxt_bound k c s cid q rxt now victim it out Hfind Hok E1 E2 Hh) as Hb.
+    rewrite !andb_true_iff. split; [split|].
+    + apply Z.leb_le. exact Hle.
+    + apply Z.leb_le. unfold pairs_of. rewrite map_length. lia.
+    + apply all_collide_intro. intros d Hd. rewrite has_first_pairs. apply Hcol. rewrite Z2Nat.id in Hd by lia. lia.
+  - assert (o_rxt out = rxt).
+    { destruct (Z.eq_dec (o_rxt out) rxt) as [E|E]; [exact E|]. specialize (Hcol rxt). cbn in Hcol. discriminate Hcol. lia. }
+    rewrite H. rewrite Z.leb_refl, Z.sub_diag. reflexivity.
+Qed.
+
+Lemma model_post_oracle s cid q rxt now victim out :
+  Inv c s -> in_era k rxt -> in_era k (rxt + icap c + 1) -> in_era k now ->
+  handle c s cid q rxt now victim = Some out ->
+  C06_post_ok (pre_of s cid) (r_rx (o_reply out)) (to64 (o_txt out)) (post_of (o_state out) cid) = true.
+Proof.
+  intros [Hnd [Hcap [Hall Hhq]]] E1 E2 E3 Hh. unfold pre_of, post_of.
+  assert (E1' : in_era k (rxt + 1)) by (apply (in_era_convex k rxt (rxt + icap c + 1)); auto; lia).
+  destruct (find_item cid (items s)) as [it|] eqn:Hfind.
+  - destruct (find_item_In _ _ _ Hfind) as [Hin Hkey].
+    assert (Hok : item_ok c it) by (rewrite Forall_forall in Hall; apply Hall; exact Hin).
+    destruct (handle_existing_spec k c Hicap s cid q rxt now victim it Hfind Hok E1 E2 E3)
+      as [out' [it' [hq' [Hh' [Hst [_ [_ [_ [_ [_ [_ [_ [_ [Hk' [_ [_ [Hrep [Hnew Hsub]]]]]]]]]]]]]]]]]].
+    assert (out' = out) by congruence. subst out'. rewrite Hst. cbn [items].
+    assert (Hf : find_item cid (replace_item it' (items s)) = Some it').
+    { rewrite <- Hk'. apply find_replace_item. rewrite Hk', <- Hkey. apply in_map. exact Hin. }
+    rewrite Hf. destruct Hrep as [R1 _]. rewrite R1. unfold C06_post_ok. apply andb_true_iff. split.
+    + exact (has_pair_pairs_of _ _ Hnew).
+    + apply forallb_forall. intros p Hp. unfold pairs_of in Hp. apply in_map_iff in Hp. destruct Hp as [e [<- He]]. cbn [fst snd].
+      destruct (Hsub e He) as [->|He']; [cbn [e_rx e_tx]; rewrite !Z.eqb_refl; reflexivity|].
+      rewrite (has_pair_pairs_of _ _ He'). apply orb_true_r.
+  - destruct (handle_new_spec k c s cid q rxt now victim out Hfind E1 E1' E3 Hh) as [Hr [_ [_ [_ [Hrep Hcases]]]]].
+    destruct Hrep as [R1 _]. rewrite R1.
+    destruct Hcases as [[_ [_ [-> _]]]|[[_ [_ [_ ->]]]|[_ [_ [_ [_ ->]]]]]].
+    + rewrite Hfind. reflexivity.
+    + cbn [items find_item new_item it_key]. rewrite Z.eqb_refl. unfold C06_post_ok, pairs_of, has_pair.
+      unfold new_item. cbn [it_ents map e_rx e_tx existsb forallb fst snd]. rewrite !Z.eqb_refl. reflexivity.
+    + cbn [items find_item new_item it_key]. rewrite Z.eqb_refl. unfold C06_post_ok, pairs_of, has_pair.
+      unfold new_item. cbn [it_ents map e_rx e_tx existsb forallb fst snd]. rewrite !Z.eqb_refl. reflexivity.
+Qed.
+
+Theorem model_handle_full_oracle s cid q rxt now victim out :
+  Inv c s -> in_era k rxt -> in_era k (rxt + icap c + 1) -> in_era k now ->
+  handle c s cid q rxt now victim = Some out ->
+  C06_handle_full_ok (pre_of s cid) q rxt now (r_org (o_reply out)) (r_rx (o_reply out)) (r_tx (o_reply out))
+    (o_rxt out) (o_txt out) (post_of (o_state out) cid) = true.
+Proof.
+  intros HI E1 E2 E3 Hh. unfold C06_handle_full_ok.
+  rewrite (model_handle_oracle k c Hicap s cid q rxt now victim out HI E1 E2 E3 Hh).
+  rewrite (model_rxt_oracle s cid q rxt now victim out HI E1 E2 Hh).
+  rewrite (model_post_oracle s cid q rxt now victim out HI E1 E2 E3 Hh). reflexivity.
+Qed.
+End Era2.
